@@ -27,6 +27,8 @@ type World struct {
 	RepoDir  string
 	CFiles   []string // contract files read
 	bySyntax map[ast.Node]*ssa.Function
+	descByPath map[string]*ssa.Function
+	descSel    map[*ssa.Function]string
 }
 
 func repoDir() string {
@@ -92,9 +94,6 @@ func loadWorld(patterns []string) (*World, error) {
 	// every contract must bind to a function of its package
 	for _, key := range w.CS.Order {
 		c := w.CS.Funcs[key]
-		if strings.HasPrefix(c.Selector, "FunctionMap[") {
-			continue
-		}
 		sp := w.SSA[c.Pkg.Path()]
 		if sp == nil {
 			continue
@@ -131,7 +130,14 @@ func (w *World) resolve(sp *ssa.Package, sel string) (*ssa.Function, error) {
 	parts := strings.Split(sel, "$lit")
 	head := parts[0]
 	var fn *ssa.Function
-	if strings.HasPrefix(head, "(*") {
+	if strings.HasPrefix(head, "FunctionMap[") {
+		// a descriptor closure addressed by its composite-literal path: FunctionMap["name"][i].Function
+		w.indexDescriptors()
+		fn = w.descByPath[head]
+		if fn == nil {
+			return nil, fmt.Errorf("descriptor %s does not bind", head)
+		}
+	} else if strings.HasPrefix(head, "(*") {
 		i := strings.Index(head, ").")
 		if i < 0 {
 			return nil, fmt.Errorf("bad selector %q", sel)
@@ -163,6 +169,40 @@ func (w *World) resolve(sp *ssa.Package, sel string) (*ssa.Function, error) {
 		fn = fn.AnonFuncs[n-1]
 	}
 	return fn, nil
+}
+
+// indexDescriptors maps every descriptor closure of functions.FunctionMap (and the literals nested in it) to its
+// path selector, so that contracts and units can name them independently of their position in the file.
+func (w *World) indexDescriptors() {
+	if w.descByPath != nil {
+		return
+	}
+	w.descByPath = map[string]*ssa.Function{}
+	w.descSel = map[*ssa.Function]string{}
+	sp, pp := w.pkgByName("functions")
+	if sp == nil || sp.Func("FunctionMap") == nil {
+		return
+	}
+	root := sp.Func("FunctionMap")
+	for _, d := range findDescriptors(pp) {
+		if d.Lit == nil {
+			continue
+		}
+		fn := w.funcBySyntax(root, d.Lit)
+		if fn == nil {
+			continue
+		}
+		path := fmt.Sprintf("FunctionMap[%q][%d].Function", d.Name, d.Index)
+		w.descByPath[path] = fn
+		var walk func(f *ssa.Function, sel string)
+		walk = func(f *ssa.Function, sel string) {
+			w.descSel[f] = sel
+			for i, a := range f.AnonFuncs {
+				walk(a, fmt.Sprintf("%s$lit%d", sel, i+1))
+			}
+		}
+		walk(fn, path)
+	}
 }
 
 func (w *World) funcBySyntax(root *ssa.Function, n ast.Node) *ssa.Function {
